@@ -159,6 +159,8 @@ class SparseFile:
         self.data = bytearray()
 
     def write(self, off: int, b: bytes) -> None:
+        if not b:
+            return
         if off > len(self.data):
             self.data.extend(b"\0" * (off - len(self.data)))
         self.data[off : off + len(b)] = b
